@@ -877,8 +877,8 @@ func (rt *socksRT) judgeAssociation(idx int, r *reqResult, u spec.User, arrivals
 		if action == "REJECT" {
 			rejected[ip.String()] = true
 		}
-		if action == "REJECT" && (class == "loopback" || class == "private") {
-			// C12: must not be relayed
+		if (class == "loopback" && !u.AllowLoopback) || (class == "private" && !u.AllowPrivate) {
+			// C12: must not be relayed (the grant decides; egress rules are promised for requests)
 			for _, p := range got[ip.String()] {
 				if len(p) >= 8 && int(binary.BigEndian.Uint32(p[4:])) == i {
 					w.violate("C12", "datagram-relayed-to-"+class+"-without-grant:"+encodingOf(d.Host), "association %d: datagram %d addressed to %q (%s) was relayed for user %s who has no grant", idx, i, d.Host, class, u.Name)
